@@ -514,3 +514,41 @@ def gen_actions(rng, case, nsteps, distinct=True):
         else:
             ops.append(["stepi", rng.randrange(len(sp["allocs"]))])
     return ops
+
+
+def small_scope_episodes():
+    """Every placement of two extra custom events around a three-point intraday grid (one second before / at /
+    one microsecond after each grid point, inside the latency window, exactly at the latency bound, one microsecond
+    beyond it, mid-bar; before the grid and after it), both insertion orders, for latency 0 and 10 s, with and
+    without markov reset and a one-bar warm-up horizon, starting at the first or the second timestep: the bounded
+    part of the search for a failing input (it supports the correspondence, it is not the proof)."""
+    t0 = 1546423200 * 1_000_000          # 2019-01-02 10:00:00
+    bar = 60 * SEC
+    grid = [t0, t0 + bar, t0 + 2 * bar]
+    lat = 10 * SEC
+    offs = [-SEC, 0, 1, lat // 2, lat, lat + 1, bar // 2]
+    places = sorted({g + o for g in grid for o in offs} | {t0 - 5 * SEC, grid[-1] + 5 * SEC})
+    out = []
+    for latency in (0, lat):
+        for markov, warmup in ((False, None), (True, None), (False, bar)):
+            for eplen, start, nsteps in ((None, 0, 3), (1, 0, 2), (1, 1, 2)):
+                for i, a in enumerate(places):
+                    for b in places[i:]:
+                        for order in (0, 1):
+                            if a == b and order == 1:
+                                pass  # same stamp, other insertion order: ties in insertion order
+                            events = [["q", "S0", g, "100", "101"] for g in grid]
+                            extra = [["c", 1, a], ["c", 2, b]]
+                            if order:
+                                extra.reverse()
+                            # the extra events are inserted before the quotes of later bars: insertion order matters
+                            events = events[:1] + extra + events[1:]
+                            case = dict(contracts=[dict(key="S0", kind="ETF")], fees=["0", "0", "0"], deposit="10000",
+                                        grid=list(grid), events=events, latency=latency, delay=0, markov=markov,
+                                        warmup=warmup, reward="pnl", pre_env_latency=None, sibling=False,
+                                        space=dict(kind="box", low="0", high="1", keys=["S0"], asWeights=1, fractional=1, margin="0"))
+                            if eplen is not None:
+                                case["eplen"] = eplen
+                            case["ops"] = [["reset", None, start]] + [["step", ["1/2"]] for _ in range(nsteps)]
+                            out.append(case)
+    return out
